@@ -11,4 +11,5 @@ def bounded_jobs(tier, seed):
         bj('rcc.b_C02', 'run_roundtrip', tier, seed),
         bj('rcc.b_C02', 'run_layout', tier, seed),
         bj('rcc.b_C02', 'run_cross_format', tier, seed),
+        bj('rcc.b_C02', 'run_native_values', tier, seed),
     ]
